@@ -2273,6 +2273,7 @@ class FST:
 
         # we do all this so that we can apply trivia rules at root, otherwise we could have just done the above for everything
 
+        mark = self._cache.get('mark')  # a copy is not a modification, the reconcile checkpoint survives the remake of self below
         tmpf = FST(Module(body=[], type_ignores=[]), lines, None, from_=self, lcopy=False)
 
         tmpf._set_field([ast], 'body', True, False)  # yeah, hacky
@@ -2284,6 +2285,9 @@ class FST:
 
         finally:  # in case of error try to remake self anyway to leave in valid state
             FST(ast, lines, None, from_=tmpf, lcopy=False, tmake=False)  # recreate self as root node
+
+            if mark:
+                ast.f._cache['mark'] = mark
 
         return ret
 
